@@ -65,6 +65,12 @@ fn judge(s: &Scratch, rtxn: &heed::RoTxn, sc: &Scenario, model: &BTreeMap<u32, V
     let ix = decode_index(&kv, 0, sc.metric, sc.dim).map_err(|e| ("F/undecodable".to_string(), e))?;
     let st = oracle::structure(&ix, &model.keys().copied().collect(), sc.metric, sc.dim)?;
     w.max("max_tree_depth", st.max_depth as u64);
+    // every build of a scenario uses the same capacity: no bucket may exceed it (C15's clause, here also under a memory hint)
+    let cap = sc.split_after.unwrap_or(sc.dim) as u64;
+    w.max("max_bucket", st.max_bucket);
+    if st.max_bucket > cap {
+        return Err(("O/bucket-over-capacity".into(), format!("a bucket holds {} items, the capacity is {cap} in every build of the scenario", st.max_bucket)));
+    }
     if st.zero_normals > 0 {
         w.count("forests_with_degenerate_plane", 1);
     }
@@ -346,7 +352,7 @@ pub fn c14(tier: Tier) -> i32 {
     report.assume("items are committed before each build, so that the page accounting behind the memory hint is a function of the file");
     let page = 4096usize;
     let mut scenarios = Vec::new();
-    let dims: Vec<usize> = vec![2, 130];
+    let dims: Vec<usize> = vec![2, 130, 256];
     let sizes: Vec<usize> = if tier == Tier::Quick { vec![199, 201, 450] } else { vec![199, 200, 201, 250, 450, 1100] };
     let caps_menu: Vec<Option<usize>> = vec![None, Some(64), Some(220)];
     let trees: Vec<usize> = vec![1, 3];
@@ -358,6 +364,10 @@ pub fn c14(tier: Tier) -> i32 {
             }
             for &n in &sizes {
                 for cap in &caps_menu {
+                    // 256 dimensions: only the capacity below the dimension and below the 200-item batch (64), largest size
+                    if dim == 256 && (*cap != Some(64) || n != *sizes.last().unwrap().min(&450)) {
+                        continue;
+                    }
                     for &t in &trees {
                         for round2 in 0..5 {
                             let items: Vec<(u32, Vec<u32>)> = (0..n).map(|i| (i as u32, lattice_vec(dim, i, 1))).collect();
@@ -471,7 +481,8 @@ pub fn c20(tier: Tier) -> i32 {
                         more_rounds: Vec::new(),
                         n_trees: if n > 500 { Some(2) } else { None },
                         split_after: None,
-                        memories: vec![None],
+                        // many identical vectors in one bucket: also under a memory hint smaller than that bucket
+                        memories: if n > 200 && n <= 1000 && ["one-vector", "two-distinct", "three-distinct", "all-zero"].contains(&fam) && seed == 0 { vec![None, Some(0), Some(4096)] } else { vec![None] },
                         seed: crate::common::verif_seed().wrapping_add(seed),
                         judge_distances: false,
                         horizon: 300 * (n as u64 + 20) * 3,
